@@ -19,7 +19,7 @@ pub fn prop() -> Prop {
         max_len: 500,
         quick: 60_000,
         thorough: 900_000,
-        rule: "stream A (75%): subject + k generated assertions (k in 0..7; plain, decorated, obscured); (a) ALL k! insertion orders for k<=5 (24 sampled orders for k=6,7), each with repeated insertions at generated points, through add_assertion / add_assertion_envelope / add_optional_assertion_envelope / add_assertions / add_assertion_envelopes: every build must give the byte string the harness encoder predicts; (b) re-adding any present assertion, plain or in elided/compressed/encrypted form, returns identical bytes; (c) add-then-remove of a new assertion restores the bytes, removing all assertions yields the bare subject; (d) wrap().unwrap() is identical; (e) the receiver's bytes and structural digest are unchanged by each of 1-4 generated operations of the C04 list. stream B (25%): collections with 2-6 elements (Vec, HashMap, HashSet, dcbor::Map, dcbor::Set over i64/String/u64 elements) built 3 times in different insertion orders and fresh hashers, used as subject, predicate and object: all builds byte-identical (maps also equal to the harness's sorted-map encoding). non-trivial: k>=2 distinct assertions or a collection with >=2 elements; distinct by FNV-64 of the encoding; string elements include equal-length strings with a 30-byte common prefix; HashSet and dcbor::Set pinned to the ascending-encoding array; (f) the laws with the reference envelope as the subject of an outer node, and replace_assertion by an equal assertion / by an elided rendition",
+        rule: "stream A (75%): subject + k generated assertions (k in 0..7; plain, decorated, obscured); (a) ALL k! insertion orders for k<=5 (24 sampled orders for k=6,7), each with repeated insertions at generated points, through add_assertion / add_assertion_envelope / add_optional_assertion_envelope / add_assertions / add_assertion_envelopes: every build must give the byte string the harness encoder predicts; (b) re-adding any present assertion, plain or in elided/compressed/encrypted form, returns identical bytes; (c) add-then-remove of a new assertion restores the bytes, removing all assertions yields the bare subject; (d) wrap().unwrap() is identical; (e) the receiver's bytes and structural digest are unchanged by each of 1-4 generated operations of the C04 list. stream B (25%): collections with 2-6 elements (Vec, HashMap, HashSet, dcbor::Map, dcbor::Set over i64/String/u64 elements) built 3 times in different insertion orders and fresh hashers, used as subject, predicate and object: all builds byte-identical (maps also equal to the harness's sorted-map encoding). non-trivial: k>=2 distinct assertions or a collection with >=2 elements; distinct by FNV-64 of the encoding; string elements include equal-length strings with a 30-byte common prefix; HashSet and dcbor::Set pinned to the ascending-encoding array; (f) the laws with the reference envelope as the subject of an outer node, and replace_assertion by an equal assertion / by an elided rendition; every re-add also through the *_salted(.., false) routes",
         assumptions: &["HashMap/HashSet iteration orders are sampled through fresh RandomState instances, not enumerated"],
         extra: None,
     }
